@@ -26,11 +26,11 @@ import (
 
 	"github.com/datastax/cql-proxy/codecs"
 	"github.com/datastax/cql-proxy/proxy"
-	"github.com/datastax/go-cassandra-native-protocol/compression/lz4"
 	"github.com/datastax/go-cassandra-native-protocol/compression/snappy"
 	"github.com/datastax/go-cassandra-native-protocol/frame"
 	"github.com/datastax/go-cassandra-native-protocol/message"
 	"github.com/datastax/go-cassandra-native-protocol/primitive"
+	pierrec "github.com/pierrec/lz4/v4"
 )
 
 func init() {
@@ -52,7 +52,21 @@ func decompress(comp string, b []byte) ([]byte, error) {
 	var err error
 	switch comp {
 	case "lz4":
-		err = lz4.Compressor{}.DecompressWithLength(bytes.NewReader(b), &out)
+		// with the decompressed length that precedes the block (the reference library's own decompressor only tries
+		// buffers of up to eight times the compressed length)
+		if len(b) < 4 {
+			return nil, fmt.Errorf("lz4: short body")
+		}
+		n := int(b[0])<<24 | int(b[1])<<16 | int(b[2])<<8 | int(b[3])
+		if n == 0 {
+			return nil, nil
+		}
+		dst := make([]byte, n)
+		w, derr := pierrec.UncompressBlock(b[4:], dst)
+		if derr != nil {
+			return nil, derr
+		}
+		return dst[:w], nil
 	case "snappy":
 		err = snappy.Compressor{}.DecompressWithLength(bytes.NewReader(b), &out)
 	default:
@@ -170,6 +184,11 @@ func genForward(ctx *Ctx, prop string) {
 				}
 				return c
 			}, txt)
+			if r.Intn(6) == 0 {
+				// content that compresses very well (a long run of one byte): ratios far above 8
+				txt += " " + strings.Repeat(string(rune('a'+r.Intn(26))), 200+r.Intn(ctx.Scale(3000, 60000)))
+				ctx.Count("highly-compressible-content")
+			}
 			msg = gen.Query(r, v, txt, maxVal)
 			kind = "query"
 		case 3, 4, 5:
@@ -177,7 +196,12 @@ func genForward(ctx *Ctx, prop string) {
 			isSelect = q == selText
 			e := gen.Execute(r, v, ids[q], maxVal)
 			e.Options.NamedValues = nil
-			e.Options.PositionalValues = []*primitive.Value{primitive.NewValue([]byte("tok:" + tok)), primitive.NewValue(r.Bytes(r.Intn(maxVal)))}
+			val := r.Bytes(r.Intn(maxVal))
+			if r.Intn(6) == 0 {
+				val = bytes.Repeat([]byte{byte(r.Intn(256))}, 200+r.Intn(ctx.Scale(3000, 60000)))
+				ctx.Count("highly-compressible-content")
+			}
+			e.Options.PositionalValues = []*primitive.Value{primitive.NewValue([]byte("tok:" + tok)), primitive.NewValue(val)}
 			msg = e
 			kind = "execute"
 		case 6, 7, 8:
